@@ -151,6 +151,32 @@ func (a *Alerts) Set(alert *types.Alert) error {
 	a.Lock()
 	defer a.Unlock()
 
+	return a.set(alert)
+}
+
+// SetIfNotOlder sets the alert like Set, unless the store already holds an alert
+// with the same fingerprint and a later UpdatedAt. Updates of one alert can reach
+// the store out of order when they are applied by concurrent workers; this keeps
+// an older version from overwriting a newer one. It reports whether the alert
+// was stored.
+func (a *Alerts) SetIfNotOlder(alert *types.Alert) (bool, error) {
+	a.Lock()
+	defer a.Unlock()
+
+	if a.destroyed {
+		return false, ErrDestroyed
+	}
+	if old, ok := a.alerts[alert.Fingerprint()]; ok && old.UpdatedAt.After(alert.UpdatedAt) {
+		return false, nil
+	}
+	if err := a.set(alert); err != nil {
+		return false, err
+	}
+	return true, nil
+}
+
+// set stores the alert. The caller must hold the lock.
+func (a *Alerts) set(alert *types.Alert) error {
 	if a.destroyed {
 		return ErrDestroyed
 	}
